@@ -308,7 +308,10 @@ fn cmd_check(prop: &str, tier: Tier) -> i32 {
             res.wall_s
         );
         herr.extend(res.harness_errors.iter().cloned());
-        if res.runs + (res.deaths.len() as u64) < b.runs && res.harness_errors.is_empty() {
+        for l in &res.lanes_stopped {
+            println!("  note: {l}");
+        }
+        if res.runs + (res.deaths.len() as u64) < b.runs && res.harness_errors.is_empty() && res.lanes_stopped.is_empty() {
             herr.push(format!("batch {}/{} completed {} of {} runs", b.world, b.mode, res.runs, b.runs));
         }
         let (viol, rule, comps) = with_world!(b.world, triage_batch, b, &res, prop, tier, seed, &open, &mut herr);
